@@ -3421,7 +3421,11 @@ Boolean PushSymbol(tStrComp const* pSymName, tStrComp const* pStackName) {
 
     Elem             = (PSymbolStackEntry)malloc(sizeof(TSymbolStackEntry));
     Elem->Next       = LStack->Contents;
-    Elem->Contents   = pSrc->SymWert;
+    /* own copy: a string value's buffer belongs to the symbol and is freed when
+       the symbol gets another value */
+
+    as_tempres_ini(&Elem->Contents);
+    as_tempres_copy(&Elem->Contents, &pSrc->SymWert);
     LStack->Contents = Elem;
 
     return True;
@@ -3467,7 +3471,8 @@ Boolean PopSymbol(tStrComp const* pSymName, tStrComp const* pStackName) {
         return False;
     }
 
-    Elem             = LStack->Contents;
+    Elem = LStack->Contents;
+    as_tempres_free(&pDest->SymWert);
     pDest->SymWert   = Elem->Contents;
     LStack->Contents = Elem->Next;
     if (!LStack->Contents) {
@@ -3496,6 +3501,7 @@ void ClearStacks(void) {
         while (Act->Contents) {
             Elem          = Act->Contents;
             Act->Contents = Elem->Next;
+            as_tempres_free(&Elem->Contents);
             free(Elem);
             z++;
         }
